@@ -8,11 +8,12 @@ Ltac splits := repeat match goal with |- _ /\ _ => split end.
 (* ---------------------------------------------------------------------------------------------- *)
 (* the inner loops *)
 
-Lemma g_eval_unfold mode memo deps f s v :
-  g_eval mode memo deps (S f) s v =
+Lemma g_eval_unfold mode memo dlimit deps f s v :
+  g_eval mode memo dlimit deps (S f) s v =
   if memo && mem v (g_cache s) then GOk s
   else if guard_hit mode (g_guard s) v then GCirc s v
-  else match g_args mode memo deps f (deps v) (g_push v s) with
+  else if depth_hit dlimit (g_guard s) then GDeep s v
+  else match g_args mode memo dlimit deps f (deps v) (g_push v s) with
        | GOk s2 => GOk (g_store memo v (g_pop s2))
        | e => e
        end.
@@ -20,15 +21,16 @@ Proof.
   cbn [g_eval].
   destruct (memo && mem v (g_cache s)); [reflexivity|].
   destruct (guard_hit mode (g_guard s) v); [reflexivity|].
+  destruct (depth_hit dlimit (g_guard s)); [reflexivity|].
   generalize (g_push v s). generalize (deps v).
   assert (E : forall ds s0,
     (fix args (ds : list nat) (s : gstate) {struct ds} : gres :=
        match ds with
        | [] => GOk s
-       | d :: r => match g_eval mode memo deps f s d with GOk s' => args r s' | e => e end
-       end) ds s0 = g_args mode memo deps f ds s0).
+       | d :: r => match g_eval mode memo dlimit deps f s d with GOk s' => args r s' | e => e end
+       end) ds s0 = g_args mode memo dlimit deps f ds s0).
   { induction ds as [|d r IH]; intros s0; cbn [g_args]; [reflexivity|].
-    destruct (g_eval mode memo deps f s0 d); try reflexivity. apply IH. }
+    destruct (g_eval mode memo dlimit deps f s0 d); try reflexivity. apply IH. }
   intros ds s0. rewrite E. reflexivity.
 Qed.
 
@@ -134,13 +136,36 @@ Qed.
 (* ---------------------------------------------------------------------------------------------- *)
 (* invariant of the evaluation *)
 
-Record ginv (n : nat) (deps : nat -> list nat) (s : gstate) : Prop := {
+Definition within (dlimit : option nat) (k : nat) : Prop :=
+  match dlimit with Some L => k <= L | None => True end.
+
+Record ginv (n : nat) (dlimit : option nat) (deps : nat -> list nat) (s : gstate) : Prop := {
   gi_nodup : NoDup (g_guard s);
   gi_range : forall x, In x (g_guard s) -> x < n;
   gi_chain : chain deps (g_guard s);
   gi_cache : forall c, In c (g_cache s) -> wf_from deps c;
-  gi_hw : g_hw s <= n
+  gi_hw : g_hw s <= n;
+  gi_lim : within dlimit (g_hw s);
+  gi_len : length (g_guard s) <= g_hw s
 }.
+
+Lemma depth_hit_true dl g : depth_hit dl g = true -> exists L, dl = Some L /\ L <= length g.
+Proof.
+  unfold depth_hit. destruct dl as [L|]; [|discriminate].
+  intros E. apply Nat.leb_le in E. eauto.
+Qed.
+
+Lemma depth_hit_false dl g : depth_hit dl g = false -> within dl (S (length g)).
+Proof.
+  unfold depth_hit, within. destruct dl as [L|]; [|tauto].
+  intros E. apply Nat.leb_gt in E. lia.
+Qed.
+
+Lemma within_max dl a b : within dl a -> within dl b -> within dl (Nat.max a b).
+Proof. unfold within. destruct dl; [lia|tauto]. Qed.
+
+Lemma within_le dl a b : a <= b -> within dl b -> within dl a.
+Proof. unfold within. destruct dl; [lia|tauto]. Qed.
 
 Lemma guard_length n l : NoDup l -> (forall x, In x l -> x < n) -> length l <= n.
 Proof.
@@ -161,40 +186,63 @@ Proof.
   rewrite <- mem_true. destruct (mem v l); split; intros; try congruence; try tauto.
 Qed.
 
-Lemma ginv_init n deps : ginv n deps g_init.
+Lemma ginv_init n dlimit deps : ginv n dlimit deps g_init.
 Proof.
-  constructor; cbn; try tauto; try lia. constructor.
+  constructor; cbn; try tauto; try lia; [constructor|].
+  destruct dlimit; cbn; lia.
+Qed.
+
+(* the guard stack as a chain of references: k further references below v exist *)
+Lemma chain_deep deps : forall t h k v,
+  chain deps (h :: t) -> last (h :: t) v = v -> deep deps k h -> deep deps (k + length t) v.
+Proof.
+  induction t as [|b t IH]; intros h k v C L D.
+  - cbn in L. subst. rewrite Nat.add_0_r. assumption.
+  - destruct C as [Lh C]. cbn in Lh.
+    replace (k + length (b :: t)) with (S k + length t) by (cbn; lia).
+    apply (IH b (S k) v C).
+    + exact L.
+    + exists h. split; assumption.
 Qed.
 
 Section GuardProofs.
   Variable n : nat.
   Variable memo : bool.
+  Variable dlimit : option nat.
   Variable deps : nat -> list nat.
   Hypothesis Hclosed : closed n deps.
 
-  Let ev := g_eval SearchWholeStack memo deps.
-  Let ar := g_args SearchWholeStack memo deps.
+  Let ev := g_eval SearchWholeStack memo dlimit deps.
+  Let ar := g_args SearchWholeStack memo dlimit deps.
+  Let inv := ginv n dlimit deps.
 
   Definition eval_post (s : gstate) (v : nat) (r : gres) : Prop :=
     match r with
-    | GOk s' => g_guard s' = g_guard s /\ ginv n deps s' /\ wf_from deps v /\ g_hw s <= g_hw s'
-    | GCirc s' w => ginv n deps s' /\ reach deps v w /\ In w (g_guard s') /\ linked deps (g_guard s') w
+    | GOk s' => g_guard s' = g_guard s /\ inv s' /\ wf_from deps v /\ g_hw s <= g_hw s'
+    | GCirc s' w => inv s' /\ reach deps v w /\ In w (g_guard s') /\ linked deps (g_guard s') w
                     /\ (exists p, g_guard s' = p ++ g_guard s) /\ g_hw s <= g_hw s'
+    | GDeep s' w => inv s' /\ reach deps v w /\ ~ In w (g_guard s') /\ linked deps (g_guard s') w
+                    /\ (exists p, g_guard s' = p ++ g_guard s /\ deep deps (length p) v) /\ g_hw s <= g_hw s'
+                    /\ dlimit = Some (length (g_guard s'))
     | GFuel => False
     end.
 
   Definition args_post (s : gstate) (ds : list nat) (r : gres) : Prop :=
     match r with
-    | GOk s' => g_guard s' = g_guard s /\ ginv n deps s' /\ (forall d, In d ds -> wf_from deps d) /\ g_hw s <= g_hw s'
-    | GCirc s' w => ginv n deps s' /\ (exists d, In d ds /\ reach deps d w) /\ In w (g_guard s')
+    | GOk s' => g_guard s' = g_guard s /\ inv s' /\ (forall d, In d ds -> wf_from deps d) /\ g_hw s <= g_hw s'
+    | GCirc s' w => inv s' /\ (exists d, In d ds /\ reach deps d w) /\ In w (g_guard s')
                     /\ linked deps (g_guard s') w /\ (exists p, g_guard s' = p ++ g_guard s) /\ g_hw s <= g_hw s'
+    | GDeep s' w => inv s' /\ (exists d, In d ds /\ reach deps d w) /\ ~ In w (g_guard s')
+                    /\ linked deps (g_guard s') w
+                    /\ (exists d p, In d ds /\ g_guard s' = p ++ g_guard s /\ deep deps (length p) d) /\ g_hw s <= g_hw s'
+                    /\ dlimit = Some (length (g_guard s'))
     | GFuel => False
     end.
 
   Lemma args_from_eval f :
-    (forall s v, ginv n deps s -> v < n -> linked deps (g_guard s) v ->
+    (forall s v, inv s -> v < n -> linked deps (g_guard s) v ->
                  n + 1 <= f + length (g_guard s) -> eval_post s v (ev f s v)) ->
-    forall ds s, ginv n deps s -> (forall d, In d ds -> d < n /\ linked deps (g_guard s) d) ->
+    forall ds s, inv s -> (forall d, In d ds -> d < n /\ linked deps (g_guard s) d) ->
                  n + 1 <= f + length (g_guard s) -> args_post s ds (ar f ds s).
   Proof.
     intros IH. induction ds as [|d r IHr]; intros s I P F.
@@ -202,64 +250,84 @@ Section GuardProofs.
     - unfold ar. cbn [g_args]. fold ev.
       destruct (P d (or_introl eq_refl)) as [Pd Ld].
       pose proof (IH s d I Pd Ld F) as E.
-      destruct (ev f s d) as [s1|s1 w|]; cbn in E |- *; [| |tauto].
+      destruct (ev f s d) as [s1|s1 w|s1 w|]; cbn [eval_post args_post] in E |- *; [| | |tauto].
       + destruct E as [G1 [I1 [W1 H1]]].
         assert (P1 : forall d0, In d0 r -> d0 < n /\ linked deps (g_guard s1) d0).
         { intros d0 I0. rewrite G1. apply P. right. assumption. }
         assert (F1 : n + 1 <= f + length (g_guard s1)) by (rewrite G1; assumption).
         pose proof (IHr s1 I1 P1 F1) as A. fold ar.
-        destruct (ar f r s1) as [s2|s2 w|]; cbn in A |- *; [| |tauto].
+        destruct (ar f r s1) as [s2|s2 w|s2 w|]; cbn [args_post] in A |- *; [| | |tauto].
         * destruct A as [G2 [I2 [W2 H2]]]. splits; try assumption; try congruence; try lia.
           intros d0 [<-|I0]; auto.
         * destruct A as [I2 [[d0 [I0 R0]] [Iw [Lw [[p Hp] H2]]]]].
           splits; try assumption; try lia.
           -- exists d0. split; [right; assumption|assumption].
           -- exists p. congruence.
+        * destruct A as [I2 [[d0 [I0 R0]] [Iw [Lw [[d1 [p [I1' [Hp Dp]]]] [H2 EL]]]]]].
+          splits; try assumption; try lia.
+          -- exists d0. split; [right; assumption|assumption].
+          -- exists d1, p. splits; [right; assumption|congruence|assumption].
       + destruct E as [I1 [R1 [Iw [Lw [Hp H1]]]]].
         splits; try assumption. exists d. split; [left; reflexivity|assumption].
+      + destruct E as [I1 [R1 [Iw [Lw [[p [Hp Dp]] [H1 EL]]]]]].
+        splits; try assumption.
+        * exists d. split; [left; reflexivity|assumption].
+        * exists d, p. splits; [left; reflexivity|assumption|assumption].
   Qed.
 
   Lemma eval_spec f :
-    forall s v, ginv n deps s -> v < n -> linked deps (g_guard s) v ->
+    forall s v, inv s -> v < n -> linked deps (g_guard s) v ->
                 n + 1 <= f + length (g_guard s) -> eval_post s v (ev f s v).
   Proof.
     induction f as [|f IH]; intros s v I Pv Lv F.
-    - exfalso. pose proof (guard_length n _ (gi_nodup _ _ _ I) (gi_range _ _ _ I)). lia.
+    - exfalso. pose proof (guard_length n _ (gi_nodup _ _ _ _ I) (gi_range _ _ _ _ I)). lia.
     - unfold ev. rewrite g_eval_unfold.
       destruct (memo && mem v (g_cache s)) eqn:Ec.
       + apply andb_true_iff in Ec. destruct Ec as [_ Ec]. apply mem_true in Ec.
-        cbn. splits; auto. apply (gi_cache _ _ _ I). assumption.
+        cbn. splits; auto. apply (gi_cache _ _ _ _ I). assumption.
       + destruct (guard_hit SearchWholeStack (g_guard s) v) eqn:Eh.
         * cbn in Eh. fold (mem v (g_guard s)) in Eh. apply mem_true in Eh.
           cbn. splits; auto. apply reach_refl. exists []. reflexivity.
         * cbn in Eh. fold (mem v (g_guard s)) in Eh. apply mem_false in Eh.
-          assert (ND : NoDup (v :: g_guard s)) by (constructor; [assumption|apply (gi_nodup _ _ _ I)]).
+          destruct (depth_hit dlimit (g_guard s)) eqn:Ed.
+          { (* the nesting limit is reached *)
+            destruct (depth_hit_true _ _ Ed) as [L [EL HL]].
+            pose proof (gi_lim _ _ _ _ I) as HW. rewrite EL in HW. cbn in HW.
+            pose proof (gi_len _ _ _ _ I) as HN.
+            cbn [eval_post]. splits; auto.
+            - apply reach_refl.
+            - exists []. split; [reflexivity|exact Logic.I].
+            - rewrite EL. f_equal. lia. }
+          assert (ND : NoDup (v :: g_guard s)) by (constructor; [assumption|apply (gi_nodup _ _ _ _ I)]).
           assert (RG : forall x, In x (v :: g_guard s) -> x < n).
-          { intros x [<-|Ix]; [assumption|apply (gi_range _ _ _ I); assumption]. }
+          { intros x [<-|Ix]; [assumption|apply (gi_range _ _ _ _ I); assumption]. }
           pose proof (guard_length n _ ND RG) as LEN. cbn [length] in LEN.
-          assert (I1 : ginv n deps (g_push v s)).
+          assert (I1 : inv (g_push v s)).
           { constructor; cbn [g_push g_guard g_cache g_hw]; try assumption.
-            - split; [assumption|apply (gi_chain _ _ _ I)].
-            - apply (gi_cache _ _ _ I).
-            - pose proof (gi_hw _ _ _ I). lia. }
+            - split; [assumption|apply (gi_chain _ _ _ _ I)].
+            - apply (gi_cache _ _ _ _ I).
+            - pose proof (gi_hw _ _ _ _ I). lia.
+            - apply within_max; [apply (gi_lim _ _ _ _ I)|apply depth_hit_false; assumption].
+            - cbn [length]. lia. }
           assert (P1 : forall d, In d (deps v) -> d < n /\ linked deps (g_guard (g_push v s)) d).
           { intros d Id. split; [exact (Hclosed v d Pv Id)|exact Id]. }
           assert (F1 : n + 1 <= f + length (g_guard (g_push v s))) by (cbn; lia).
           pose proof (args_from_eval f IH (deps v) (g_push v s) I1 P1 F1) as A. fold ar.
-          destruct (ar f (deps v) (g_push v s)) as [s2|s2 w|]; cbn in A |- *; [| |tauto].
+          destruct (ar f (deps v) (g_push v s)) as [s2|s2 w|s2 w|]; cbn [args_post eval_post] in A |- *; [| | |tauto].
           -- destruct A as [G2 [I2 [W2 H2]]]. cbn [g_push g_guard] in G2.
              assert (Wv : wf_from deps v) by (constructor; assumption).
-             assert (Ip : ginv n deps (g_pop s2)).
-             { destruct I2 as [a b c d e]. rewrite G2 in a, b, c.
+             assert (Ip : inv (g_pop s2)).
+             { destruct I2 as [a b c d e e' e'']. rewrite G2 in a, b, c, e''.
                constructor; cbn [g_pop g_guard g_cache g_hw]; rewrite ?G2; cbn [tl]; try assumption.
                - inversion a; assumption.
                - intros x Ix. apply b. right. assumption.
-               - destruct c; assumption. }
+               - destruct c; assumption.
+               - cbn [length] in e''. lia. }
              assert (Gp : g_guard (g_pop s2) = g_guard s) by (cbn; rewrite G2; reflexivity).
              cbn [g_push g_hw] in H2.
              unfold g_store. destruct memo; cbn [g_guard g_hw g_pop] in *.
              ++ splits; try assumption; try lia.
-                destruct Ip as [a b c d e]. constructor; cbn [g_guard g_cache g_hw g_pop] in *; try assumption.
+                destruct Ip as [a b c d e e' e'']. constructor; cbn [g_guard g_cache g_hw g_pop] in *; try assumption.
                 intros c0 [<-|Ic]; auto.
              ++ splits; try assumption; try lia.
           -- destruct A as [I2 [[d [Id Rd]] [Iw [Lw [[p Hp] H2]]]]].
@@ -267,23 +335,32 @@ Section GuardProofs.
              splits; try assumption; try lia.
              ++ eapply reach_step; eassumption.
              ++ exists (p ++ [v]). rewrite <- app_assoc. exact Hp.
+          -- destruct A as [I2 [[d [Id Rd]] [Iw [Lw [[d1 [p [I1' [Hp Dp]]]] [H2 EL]]]]]].
+             cbn [g_push g_guard g_hw] in Hp, H2.
+             splits; try assumption; try lia.
+             ++ exact (reach_step deps v d w Id Rd).
+             ++ exists (p ++ [v]). split; [rewrite <- app_assoc; exact Hp|].
+                rewrite app_length. cbn [length]. replace (length p + 1) with (S (length p)) by lia.
+                exists d1. split; assumption.
   Qed.
 End GuardProofs.
 
 (* ---------------------------------------------------------------------------------------------- *)
-(* statements about one lazy evaluation started from an empty guard stack *)
+(* statements about one lazy evaluation started from an empty guard stack; dlimit = None is the code
+   without a nesting limit, Some L the code with 'if (m_guardStack.size() >= L) error' *)
 
 Section GuardTheorems.
   Variable n : nat.
   Variable memo : bool.
+  Variable dlimit : option nat.
   Variable deps : nat -> list nat.
   Hypothesis Hclosed : closed n deps.
   Variable v : nat.
   Hypothesis Hv : v < n.
 
-  Let r := g_eval SearchWholeStack memo deps (S n) g_init v.
+  Let r := g_eval SearchWholeStack memo dlimit deps (S n) g_init v.
 
-  Lemma init_spec : eval_post n deps g_init v r.
+  Lemma init_spec : eval_post n dlimit deps g_init v r.
   Proof.
     apply eval_spec; try assumption.
     - apply ginv_init.
@@ -292,70 +369,132 @@ Section GuardTheorems.
   Qed.
 
   Lemma guard_terminates_l : r <> GFuel.
-  Proof. pose proof init_spec as P. destruct r; cbn in P; [discriminate|discriminate|tauto]. Qed.
+  Proof. pose proof init_spec as P. destruct r; cbn in P; try discriminate; tauto. Qed.
 
   Lemma circ_sound s w : r = GCirc s w -> reach deps v w /\ on_cycle deps w.
   Proof.
     intros E. pose proof init_spec as P. rewrite E in P. cbn in P.
     destruct P as [I [R [Iw [Lw _]]]]. split; [assumption|].
-    eapply chain_cycle; try eassumption. apply (gi_chain _ _ _ I).
+    eapply chain_cycle; try eassumption. apply (gi_chain _ _ _ _ I).
   Qed.
 
   Lemma ok_sound s : r = GOk s -> wf_from deps v.
   Proof. intros E. pose proof init_spec as P. rewrite E in P. cbn in P. tauto. Qed.
 
-  Lemma guard_detects_every_cycle_l : (exists s w, r = GCirc s w) <-> reaches_cycle deps v.
+  (* the nesting error: the stack holds exactly L variables, a duplicate-free chain of references that
+     starts at v, and w (not among them) is referenced by the last one: L further references below v *)
+  Lemma deep_sound s w :
+    r = GDeep s w ->
+    dlimit = Some (length (g_guard s)) /\ reach deps v w /\ deep deps (length (g_guard s)) v
+    /\ NoDup (w :: g_guard s) /\ chain deps (w :: g_guard s).
   Proof.
-    split.
-    - intros [s [w E]]. exists w. apply (circ_sound s). assumption.
-    - intros C. destruct r as [s|s w|] eqn:E.
-      + exfalso. eapply wf_from_no_cycle; [apply (ok_sound s); exact E|assumption].
-      + eauto.
-      + exfalso. apply guard_terminates_l. assumption.
+    intros E. pose proof init_spec as P. rewrite E in P. cbn [eval_post] in P.
+    destruct P as [I [R [Nw [Lw [[p [Hp Dp]] [_ EL]]]]]].
+    cbn [g_init g_guard] in Hp. rewrite app_nil_r in Hp. subst p.
+    splits; try assumption.
+    - constructor; [assumption|apply (gi_nodup _ _ _ _ I)].
+    - split; [assumption|apply (gi_chain _ _ _ _ I)].
   Qed.
 
-  Lemma guard_ok_iff_l : (exists s, r = GOk s) <-> wf_from deps v.
+  Lemma no_deep_unlimited s w : dlimit = None -> r <> GDeep s w.
+  Proof. intros EN E. destruct (deep_sound s w E) as [EL _]. congruence. Qed.
+
+  (* a reachable cycle always ends in one of the two errors *)
+  Lemma cycle_is_error_l :
+    reaches_cycle deps v -> (exists s w, r = GCirc s w) \/ (exists s w, r = GDeep s w).
   Proof.
-    split.
+    intros C. destruct r as [s|s w|s w|] eqn:E.
+    - exfalso. eapply wf_from_no_cycle; [apply (ok_sound s); exact E|assumption].
+    - left. eauto.
+    - right. eauto.
+    - exfalso. apply guard_terminates_l. exact E.
+  Qed.
+
+  (* when no chain of references from v is as long as the limit, the limit does not interfere *)
+  Lemma short_chains_unaffected_l :
+    (forall L, dlimit = Some L -> ~ deep deps L v) ->
+    ((exists s w, r = GCirc s w) <-> reaches_cycle deps v) /\ ((exists s, r = GOk s) <-> wf_from deps v).
+  Proof.
+    intros Hs.
+    assert (ND : forall s w, r <> GDeep s w).
+    { intros s w E. destruct (deep_sound s w E) as [EL [_ [D _]]]. exact (Hs _ EL D). }
+    split; split.
+    - intros [s [w E]]. exists w. apply (circ_sound s). assumption.
+    - intros C. destruct (cycle_is_error_l C) as [H|[s [w E]]]; [assumption|]. exfalso. exact (ND s w E).
     - intros [s E]. apply (ok_sound s). assumption.
-    - intros W. destruct r as [s|s w|] eqn:E.
+    - intros W. destruct r as [s|s w|s w|] eqn:E.
       + eauto.
       + exfalso. eapply wf_from_no_cycle; [exact W|]. exists w. apply (circ_sound s). exact E.
-      + exfalso. apply guard_terminates_l. assumption.
+      + exfalso. exact (ND s w eq_refl).
+      + exfalso. apply guard_terminates_l. exact E.
   Qed.
 
   Lemma guard_stack_bounded_l :
-    match r with GOk s => g_hw s <= n | GCirc s _ => g_hw s <= n /\ length (g_guard s) <= n | GFuel => False end.
+    match r with
+    | GOk s => g_hw s <= n /\ within dlimit (g_hw s)
+    | GCirc s _ => g_hw s <= n /\ length (g_guard s) <= n /\ within dlimit (g_hw s)
+    | GDeep s _ => g_hw s <= n /\ within dlimit (g_hw s)
+    | GFuel => False
+    end.
   Proof.
-    pose proof init_spec as P. destruct r; cbn in P; [| |tauto].
-    - destruct P as [_ [I _]]. apply (gi_hw _ _ _ I).
-    - destruct P as [I _]. split; [apply (gi_hw _ _ _ I)|].
-      apply guard_length; [apply (gi_nodup _ _ _ I)|apply (gi_range _ _ _ I)].
+    pose proof init_spec as P. destruct r; cbn [eval_post] in P; [| | |tauto].
+    - destruct P as [_ [I _]]. split; [apply (gi_hw _ _ _ _ I)|apply (gi_lim _ _ _ _ I)].
+    - destruct P as [I _]. splits; [apply (gi_hw _ _ _ _ I)| |apply (gi_lim _ _ _ _ I)].
+      apply guard_length; [apply (gi_nodup _ _ _ _ I)|apply (gi_range _ _ _ _ I)].
+    - destruct P as [I _]. split; [apply (gi_hw _ _ _ _ I)|apply (gi_lim _ _ _ _ I)].
   Qed.
 
   Lemma guard_balanced_l :
     match r with
     | GOk s => g_guard s = []
     | GCirc s w => NoDup (g_guard s) /\ chain deps (g_guard s) /\ In w (g_guard s) /\ g_guard (g_reset s) = []
+    | GDeep s w => NoDup (g_guard s) /\ chain deps (g_guard s) /\ ~ In w (g_guard s) /\ g_guard (g_reset s) = []
     | GFuel => False
     end.
   Proof.
-    pose proof init_spec as P. destruct r; cbn in P; [| |tauto].
-    - tauto.
+    pose proof init_spec as P. destruct r; cbn [eval_post] in P; [| | |tauto].
+    - cbn in P. tauto.
     - destruct P as [I [_ [Iw _]]]. splits; try assumption; try reflexivity.
-      + apply (gi_nodup _ _ _ I).
-      + apply (gi_chain _ _ _ I).
+      + apply (gi_nodup _ _ _ _ I).
+      + apply (gi_chain _ _ _ _ I).
+    - destruct P as [I [_ [Iw _]]]. splits; try assumption; try reflexivity.
+      + apply (gi_nodup _ _ _ _ I).
+      + apply (gi_chain _ _ _ _ I).
   Qed.
 End GuardTheorems.
 
+(* the code without a nesting limit *)
+Lemma guard_detects_every_cycle_l n memo deps (C : closed n deps) v (Hv : v < n) :
+  (exists s w, g_eval SearchWholeStack memo None deps (S n) g_init v = GCirc s w) <-> reaches_cycle deps v.
+Proof. apply (short_chains_unaffected_l n memo None deps C v Hv). intros L E. discriminate. Qed.
+
+Lemma guard_ok_iff_l n memo deps (C : closed n deps) v (Hv : v < n) :
+  (exists s, g_eval SearchWholeStack memo None deps (S n) g_init v = GOk s) <-> wf_from deps v.
+Proof. apply (short_chains_unaffected_l n memo None deps C v Hv). intros L E. discriminate. Qed.
+
 (* balanced from ANY reachable state (not only the empty stack): a successful lazy evaluation leaves
    the guard stack exactly as it found it *)
-Lemma guard_balanced_any n memo deps s v f :
-  closed n deps -> ginv n deps s -> v < n -> linked deps (g_guard s) v -> n + 1 <= f + length (g_guard s) ->
-  forall s', g_eval SearchWholeStack memo deps f s v = GOk s' -> g_guard s' = g_guard s.
+Lemma guard_balanced_any n memo dlimit deps s v f :
+  closed n deps -> ginv n dlimit deps s -> v < n -> linked deps (g_guard s) v -> n + 1 <= f + length (g_guard s) ->
+  forall s', g_eval SearchWholeStack memo dlimit deps f s v = GOk s' -> g_guard s' = g_guard s.
 Proof.
-  intros C I Hv L F s' E. pose proof (eval_spec n memo deps C f s v I Hv L F) as P.
+  intros C I Hv L F s' E. pose proof (eval_spec n memo dlimit deps C f s v I Hv L F) as P.
   rewrite E in P. cbn in P. tauto.
+Qed.
+
+(* the code with the nesting limit L: the native recursion is never deeper than L *)
+Lemma native_recursion_bounded_l L n memo deps (C : closed n deps) v (Hv : v < n) :
+  match g_eval SearchWholeStack memo (Some L) deps (S n) g_init v with
+  | GOk s => g_hw s <= L
+  | GCirc s _ => g_hw s <= L
+  | GDeep s w => g_hw s <= L /\ length (g_guard s) = L /\ deep deps L v
+  | GFuel => False
+  end.
+Proof.
+  pose proof (guard_stack_bounded_l n memo (Some L) deps C v Hv) as B.
+  destruct (g_eval SearchWholeStack memo (Some L) deps (S n) g_init v) as [s|s w|s w|] eqn:E; cbn [within] in B; try tauto.
+  destruct (deep_sound n memo (Some L) deps C v Hv s w E) as [EL [_ [D _]]].
+  injection EL as EL. splits; try tauto; try congruence.
 Qed.
 
 (* ---------------------------------------------------------------------------------------------- *)
@@ -366,13 +505,13 @@ Definition two_cycle (v : nat) : list nat := [1 - v].
 
 Lemma top_only_diverges memo : forall fuel s v,
   v < 2 -> g_cache s = [] -> (g_guard s = [] \/ exists r, g_guard s = (1 - v) :: r) ->
-  g_eval SearchTopOnly memo two_cycle fuel s v = GFuel.
+  g_eval SearchTopOnly memo None two_cycle fuel s v = GFuel.
 Proof.
   induction fuel as [|f IH]; intros s v Hv Hc Hg; [reflexivity|].
   rewrite g_eval_unfold. rewrite Hc. cbn [mem existsb]. rewrite andb_false_r.
   assert (Eh : guard_hit SearchTopOnly (g_guard s) v = false).
   { destruct Hg as [->|[r ->]]; cbn [guard_hit]; [reflexivity|]. apply Nat.eqb_neq. lia. }
-  rewrite Eh. change (two_cycle v) with [1 - v]. cbn [g_args].
+  rewrite Eh. cbn [depth_hit]. change (two_cycle v) with [1 - v]. cbn [g_args].
   rewrite IH; [reflexivity|lia|cbn; assumption|].
   right. exists (g_guard s). cbn [g_push g_guard]. f_equal. lia.
 Qed.
@@ -396,13 +535,13 @@ Qed.
 
 Lemma chain_eval memo n : forall k v s f,
   v + k = n -> (forall x, In x (g_guard s) -> x < v) -> (forall x, In x (g_cache s) -> x < v) -> k + 1 <= f ->
-  exists s', g_eval SearchWholeStack memo (chain_deps n) f s v = GOk s'
+  exists s', g_eval SearchWholeStack memo None (chain_deps n) f s v = GOk s'
              /\ g_guard s' = g_guard s /\ (forall x, In x (g_cache s') -> In x (g_cache s) \/ v <= x)
              /\ g_hw s' = Nat.max (g_hw s) (length (g_guard s) + k + 1).
 Proof.
   induction k as [|k IH]; intros v s f E G C F; (destruct f as [|f]; [lia|]); rewrite g_eval_unfold;
     rewrite (mem_small v (g_cache s) C), andb_false_r;
-    cbn [guard_hit]; fold (mem v (g_guard s)); rewrite (mem_small v (g_guard s) G).
+    cbn [guard_hit depth_hit]; fold (mem v (g_guard s)); rewrite (mem_small v (g_guard s) G).
   - change (chain_deps n v) with (if v <? n then [S v] else []).
     replace (v <? n) with false by (symmetry; apply Nat.ltb_ge; lia).
     cbn [g_args]. eexists. split; [reflexivity|].
@@ -424,7 +563,7 @@ Proof.
 Qed.
 
 Lemma guard_depth_reaches_count memo n :
-  exists s, g_eval SearchWholeStack memo (chain_deps n) (S (S n)) g_init 0 = GOk s /\ g_hw s = S n.
+  exists s, g_eval SearchWholeStack memo None (chain_deps n) (S (S n)) g_init 0 = GOk s /\ g_hw s = S n.
 Proof.
   destruct (chain_eval memo n n 0 g_init (S (S n))) as [s [E [_ [_ H]]]]; cbn; try lia; try tauto.
   exists s. split; [assumption|]. cbn in H. lia.
@@ -432,7 +571,7 @@ Qed.
 
 Lemma native_bound_refuted_l :
   ~ exists B, forall n deps v s, closed n deps -> v < n ->
-      g_eval SearchWholeStack true deps (S n) g_init v = GOk s -> g_hw s <= B.
+      g_eval SearchWholeStack true None deps (S n) g_init v = GOk s -> g_hw s <= B.
 Proof.
   intros [B HB].
   destruct (guard_depth_reaches_count true B) as [s [E H]].
@@ -441,30 +580,32 @@ Qed.
 
 Lemma native_bound_partial_l :
   forall B n deps v s, n <= B -> closed n deps -> v < n ->
-    g_eval SearchWholeStack true deps (S n) g_init v = GOk s -> g_hw s <= B.
+    g_eval SearchWholeStack true None deps (S n) g_init v = GOk s -> g_hw s <= B.
 Proof.
   intros B n deps v s HB C H E.
-  pose proof (guard_stack_bounded_l n true deps C v H) as P.
+  pose proof (guard_stack_bounded_l n true None deps C v H) as P.
   rewrite E in P. lia.
 Qed.
 
 Lemma attset_balanced_l :
   forall n deps v, closed n deps -> v < n ->
-    match g_eval SearchWholeStack false deps (S n) g_init v with
+    match g_eval SearchWholeStack false None deps (S n) g_init v with
     | GOk s => g_guard s = [] /\ g_hw s <= n
     | GCirc s w => NoDup (g_guard s) /\ In w (g_guard s) /\ g_hw s <= n
+    | GDeep _ _ => False
     | GFuel => False
     end.
 Proof.
   intros n deps v C H.
-  pose proof (guard_balanced_l n false deps C v H) as B.
-  pose proof (guard_stack_bounded_l n false deps C v H) as Bd.
-  destruct (g_eval SearchWholeStack false deps (S n) g_init v); tauto.
+  pose proof (guard_balanced_l n false None deps C v H) as B.
+  pose proof (guard_stack_bounded_l n false None deps C v H) as Bd.
+  destruct (g_eval SearchWholeStack false None deps (S n) g_init v) as [s|s w|s w|] eqn:E; try tauto.
+  exact (no_deep_unlimited n false None deps C v H s w eq_refl E).
 Qed.
 
 Lemma top_only_refuted_l memo :
   exists deps n v, closed n deps /\ v < n /\ reaches_cycle deps v /\
-    forall fuel, g_eval SearchTopOnly memo deps fuel g_init v = GFuel.
+    forall fuel, g_eval SearchTopOnly memo None deps fuel g_init v = GFuel.
 Proof.
   exists two_cycle, 2, 0. splits.
   - intros v d Hv [<-|[]]. lia.
@@ -472,6 +613,29 @@ Proof.
   - exists 0. split; [apply reach_refl|]. exists 1. split; [left; reflexivity|].
     eapply reach_step; [left; reflexivity|apply reach_refl].
   - intros fuel. apply top_only_diverges; [lia|reflexivity|left; reflexivity].
+Qed.
+
+(* what holds about the depth of the native recursion in the tree at hand, by variant *)
+Definition native_recursion_statement (dl : option nat) : Prop :=
+  match dl with
+  | Some L =>
+      forall n deps v, closed n deps -> v < n ->
+        match g_eval SearchWholeStack true (Some L) deps (S n) g_init v with
+        | GOk s => g_hw s <= L
+        | GCirc s _ => g_hw s <= L
+        | GDeep s w => g_hw s <= L /\ length (g_guard s) = L /\ deep deps L v
+        | GFuel => False
+        end
+  | None =>
+      ~ exists B, forall n deps v s, closed n deps -> v < n ->
+          g_eval SearchWholeStack true None deps (S n) g_init v = GOk s -> g_hw s <= B
+  end.
+
+Lemma native_recursion_this_tree_l dl : native_recursion_statement dl.
+Proof.
+  destruct dl as [L|]; cbn [native_recursion_statement].
+  - intros n deps v C H. apply native_recursion_bounded_l; assumption.
+  - exact native_bound_refuted_l.
 Qed.
 
 (* ---------------------------------------------------------------------------------------------- *)
